@@ -11,7 +11,7 @@ fn main() {
         let nin = s.io.input as usize;
         print!("{:8} io={:?}: ", b.name(), s.io);
         for t in 0..2 * n {
-            if t == n {
+            if t == n && std::env::var("NOSWAP").is_err() {
                 match s.compile(&src2) { Compiled::Payload(p) => s.deliver(p), Compiled::Failed(e) => println!("compile failed {e}") }
                 print!(" | swap={:?} | ", s.callback_begin());
             }
